@@ -2153,7 +2153,7 @@ func c05Corpus() []c05Case {
 			c.Tok.Aud = c05Strs{Form: "str", Vals: []string{"web", "", "api"}}
 		}),
 		with(func(c *c05Case) { c.Cred = "none"; c.Tok = nil }),
-		// unverified metadata document without issuer, no issuers configured: nothing but "" is trusted
+		// C05-F5 (repaired by d55629a): unverified metadata document without issuer, no issuers configured: nothing but "" is trusted
 		with(func(c *c05Case) {
 			c.Metadata, c.MdID, c.MdIssuer, c.Proto.Issuers = "unverified", 424242, "", nil
 			evil := "https://evil.example"
@@ -2574,7 +2574,7 @@ func c05HistCorpus() []c05Hist {
 			step(rotated, "tenant-a", "own", tok("tenant-a", "k1", 4)),
 			step(rotated, "tenant-a", "own", tok("tenant-a", "", 4)),
 		}},
-		// C05-F4: strict and lax authenticator share endpoint and cache; the key's certificate is from a foreign CA
+		// C05-F4 (repaired by d20d7cd): strict and lax authenticator share endpoint and cache; the key's certificate is from a foreign CA
 		{Proto: proto, CacheTTL: "default", Templated: true, Steps: []c05HStep{
 			whoStep(badCert, "strict", tok("tenant-a", "k1", 3)),
 			whoStep(badCert, "lax", tok("tenant-a", "k1", 3)),
@@ -2593,7 +2593,7 @@ func c05HistCorpus() []c05Hist {
 			ruleTTL(step(rotated, "tenant-a", "previous", tok("tenant-a", "k1", 3)), "1m"),
 			step(rotated, "tenant-a", "previous", tok("tenant-a", "k1", 3)),
 		}},
-		// C05-F6: the tenant travels in a templated HEADER, same url; both tenants use kid k1 for different keys
+		// C05-F6 (repaired by 4a30678): the tenant travels in a templated HEADER, same url; both tenants use kid k1 for different keys
 		{Proto: proto, CacheTTL: "default", Templated: true, Render: "header", Steps: []c05HStep{
 			step(env, "tenant-a", "own", tok("tenant-a", "k1", 3)),
 			step(env, "tenant-b", "cross", tok("tenant-b", "k1", 3)),
